@@ -92,6 +92,7 @@ func mkConfig(l *loaded, h harnessCfg, t tierCfg, thorough bool) *interp.Config 
 	if cfg.MaxPaths == 0 {
 		cfg.MaxPaths = 100000
 	}
+	cfg.Thorough = thorough
 	if thorough {
 		cfg.FallbackMs = 300000
 		cfg.AssertTimeMs = 60000
@@ -115,6 +116,9 @@ func workers() int {
 func main() {
 	if len(os.Args) < 2 {
 		fatal("usage: symgo run|harness|replay|selftest ...")
+	}
+	if os.Getenv("SYMGO_SLOWLOG") != "" {
+		interp.SlowLog = os.Stderr
 	}
 	switch os.Args[1] {
 	case "run":
